@@ -122,6 +122,13 @@ def enumerate_specs(tier):
                 elif (hi + fi) % 5 == 3:
                     setup = "unreached"
                 specs.append({"opt": opt, "flags": fl, "history": h, "setup": setup})
+    for fl in SGD_FLAGS:
+        for state in (("fresh", "buffer") if fl["momentum"] != 0 else ("fresh",)):
+            specs.append({"kind": "induct", "opt": "SGD", "flags": fl, "state": state})
+    for opt in ("Adam", "AdamW"):
+        for fl in ADAM_FLAGS:
+            for state in (0, 1, 2) if tier == "quick" else (0, 1, 2, 3, 5):
+                specs.append({"kind": "induct", "opt": opt, "flags": fl, "state": state})
     return specs
 
 
@@ -225,7 +232,71 @@ class Case:
         return out
 
 
+class StepCase(Case):
+    """inductive step: arbitrary symbolic optimizer state (momentum buffer / moment estimates / step count) and an
+    arbitrary gradient; one real step() must equal one step of the documented rule from that state.  Together with the
+    initial-state histories this covers trajectories of any length (invariant: second-moment estimate >= 0)."""
+
+    def __init__(self, spec):
+        self.spec = spec
+        self.sig = sig_of(spec["opt"] + "-step", {"flags": spec["flags"], "state": spec["state"]}, None)
+
+    def run(self, env):
+        from synapgrad import nn, optim
+        Tn = T()
+        out = E.Outcome()
+        sp = self.spec
+        h = self.hyper(env)
+        shp = (2,)
+        a = env.arr("p0", shp)
+        p = nn.Parameter(Tn(a, requires_grad=True))
+        g = env.arr("grad", shp, lo=-2, hi=2)
+        p._grad = snapshot(g)
+        R = RefParam([a[i] for i in range(2)])
+        R.grad = [g[i] for i in range(2)]
+        if sp["opt"] == "SGD":
+            opt = optim.SGD([p], lr=h["lr"], momentum=h["momentum"], dampening=h["dampening"],
+                            weight_decay=h["weight_decay"], nesterov=h["nesterov"], maximize=h["maximize"])
+            if sp["state"] == "buffer":
+                b = env.arr("buf", shp)
+                opt.momentum_buffer[0] = snapshot(b)
+                opt.t = 3
+                R.state["buf"] = [b[i] for i in range(2)]
+        else:
+            cls = optim.Adam if sp["opt"] == "Adam" else optim.AdamW
+            opt = cls([p], lr=h["lr"], betas=(h["beta1"], h["beta2"]), eps=h["eps"], weight_decay=h["weight_decay"],
+                      maximize=h["maximize"])
+            k = int(sp["state"])
+            if k > 0:
+                m = env.arr("m", shp)
+                v = env.arr("v", shp, lo=0, hi=3)
+                opt.m1[0] = snapshot(m)
+                opt.m2[0] = snapshot(v)
+                opt.steps[0] = k
+                opt.t = k
+                R.state.update(m=[m[i] for i in range(2)], v=[v[i] for i in range(2)], t=k)
+        opt.step()
+        if sp["opt"] == "SGD":
+            ref_sgd_step(R, h)
+        else:
+            ref_adam_step(R, h, sp["opt"] == "AdamW")
+        out.pair("parameter after one step from an arbitrary state", snapshot(p.data),
+                 np.array(R.p, dtype=object if env.sym else np.float64))
+        out.fact("updated in place", p.data is a)
+        out.pair("the gradient buffer is left alone by step()", snapshot(p._grad), g)
+        if sp["opt"] == "SGD" and h["momentum"] != 0:
+            out.pair("momentum buffer after the step", snapshot(opt.momentum_buffer[0]),
+                     np.array(R.state["buf"], dtype=object if env.sym else np.float64))
+            out.fact("momentum buffer shares no memory with the gradient", not np.shares_memory(ar.unwrap(opt.momentum_buffer[0]), ar.unwrap(p._grad)))
+        if sp["opt"] != "SGD":
+            out.pair("first moment after the step", snapshot(opt.m1[0]), np.array(R.state["m"], dtype=object if env.sym else np.float64))
+            out.pair("second moment after the step", snapshot(opt.m2[0]), np.array(R.state["v"], dtype=object if env.sym else np.float64))
+        return out
+
+
 def build(spec):
+    if spec.get("kind") == "induct":
+        return StepCase(spec)
     return Case(spec)
 
 
@@ -235,7 +306,9 @@ def main(tier, seed):
     results = runner.run_pool(__name__, specs, tier, seed)
     return runner.finish(
         PROP, tier, seed, results, t0,
-        bounds={"history_length": "<= 4 with <= 2 steps (quick) / <= 6 with <= 3 steps (thorough), ending in a step",
+        bounds={"inductive_step": "one step from an arbitrary symbolic state: SGD momentum buffer present/absent; Adam/AdamW moment "
+                                  "estimates arbitrary (second moment >= 0) with 0-2 (quick) / 0-5 (thorough) previous updates",
+                "history_length": "<= 4 with <= 2 steps (quick) / <= 6 with <= 3 steps (thorough), ending in a step",
                 "parameters": "one (2,) parameter, or (2,)+(1,2) with the second frozen / never reached by backward",
                 "flag sets": {"SGD": len(SGD_FLAGS), "Adam": len(ADAM_FLAGS), "AdamW": len(ADAM_FLAGS)}},
         assumptions=["floats are reals", "hyper-parameters range over lr>0, momentum/dampening/weight_decay/betas in (0,1), "
